@@ -463,7 +463,7 @@ func VF_C09_identity() {
 	td := vfBool("td")
 	svc := Service{Getter: &g, Constructor: &c, Scope: &sc, Todo: &td, Args: []any{vfAny("arg0", 0), vfString("arg1")},
 		Calls: []Call{{Method: vfString("m"), Args: []any{vfString("ca")}, Immutable: vfBool("imm")}},
-		Tags: []Tag{{Name: vfString("tn"), Priority: vfInt("tp")}}, Fields: map[string]any{vfString("f"): vfString("fv")}}
+		Tags:  []Tag{{Name: vfString("tn"), Priority: vfInt("tp")}}, Fields: map[string]any{vfString("f"): vfString("fv")}}
 	a := Input{
 		Version:    (*Version)(vfOptStr("version")),
 		Meta:       Meta{Pkg: vfOptStr("pkg"), Imports: map[string]string{vfString("ia"): vfString("ip")}},
